@@ -122,3 +122,28 @@ Lemma int_plumbing t pos m : int_active t m = true -> (m_ret m = QResUnitErr \/ 
 Proof.
   intros I [R|R]; unfold gen_method; rewrite R, I; cbn; repeat split.
 Qed.
+
+(* ---- #[cglue_forward] ---- *)
+Lemma gen_forward_from_nth ms : forall pos k m, nth_error ms k = Some m ->
+  nth_error (gen_forward_from pos ms) k = Some (gen_forward_method (pos + k) m).
+Proof.
+  induction ms as [|x ms IH]; intros pos [|k] m H; cbn in *; try discriminate.
+  - inversion H; subst. now rewrite Nat.add_0_r.
+  - rewrite (IH (S pos) k m H). f_equal. f_equal. lia.
+Qed.
+
+Theorem forward_same t k m vs :
+  nth_error (t_methods t) k = Some m -> m_vtbl_only m = false -> m_recv m <> ROwn -> length vs = length (m_args m) ->
+  fwd_dispatch (gen_forward t) k vs = Some (k, vs).
+Proof.
+  intros H V R L. unfold fwd_dispatch, gen_forward. rewrite (gen_forward_from_nth _ 0 k m H). cbn [Nat.add].
+  unfold gen_forward_method. rewrite V. destruct (m_recv m); try contradiction; cbn [fw_convs fw_target fw_ret_id].
+  all: rewrite map_length, L, Nat.eqb_refl; cbn [andb];
+    replace (forallb _ (map (fun _ : ashape * leaf => VId) (m_args m))) with true by (clear; induction (m_args m); cbn; auto); reflexivity.
+Qed.
+
+Lemma forward_skips_consuming t k m vs :
+  nth_error (t_methods t) k = Some m -> m_recv m = ROwn -> fwd_dispatch (gen_forward t) k vs = None.
+Proof.
+  intros H R. unfold fwd_dispatch, gen_forward. rewrite (gen_forward_from_nth _ 0 k m H). unfold gen_forward_method. rewrite R. now destruct (m_vtbl_only m).
+Qed.
